@@ -31,6 +31,11 @@ def sched_chain(rng, coin, shape):
     # a few scripts recur many times, interleaved with unique ones: state shared between evaluation tasks
     # (memo / cache keyed too coarsely) only shows when the same script is evaluated by several workers
     hot = [gen.std_script(rng, coin, k) for k in (kinds[:6] if len(kinds) >= 6 else kinds)]
+    # scripts for which the evaluator logs a warning (v0 witness programs of an illegal length) and OP_RETURN outputs:
+    # log records written from the worker threads must not get mixed into what the callbacks print
+    hot.append(b"\x00\x03\xaa\xbb\xcc")
+    hot.append(b"\x6a" + gen.push(b"recurring opreturn payload"))
+    hot.append(b"\x00\x10" + rbytes(rng, 16))
     for h, (ntx, nout) in enumerate(shape):
         txs = []
         for ti in range(ntx):
